@@ -1,5 +1,6 @@
-(* (b) continued: one iteration of the main loop of parse() on a value token and on a
-   binary operator token, as a transition of the spine machine. *)
+(* (b) continued: finite facts about the generated and the pinned tables; one iteration
+   of the main loop of parse() on a value token and on a binary operator token unfolded
+   from Model.Parser.step; parse_token for a value arriving under an open frame. *)
 From Coq Require Import List Arith Bool NArith Lia.
 From GV Require Import Base.Result Gen.TokenTypes Gen.Defs Model.Parser Spec.RefTable Spec.Pratt Spec.Chains
   Proofs.C02.Denote Proofs.C02.Invariant.
